@@ -11,7 +11,11 @@ compute for every function definition
             (translated or libc) that writes through its parameter
   statics   local `static` variables (they are objects named `<function>::<var>`)
   callees   functions of the program that are called or whose address is taken
-  exts      external functions (libc / libm) called
+  exts      external functions (libc / libm) called; a stdio output call carries its stream: `fprintf@stderr`,
+            `fprintf@stdout`, `fprintf@other` (stream argument not one of the three standard objects)
+
+Rows `<f>@user` (class `usermut`) are the crystal-array mutators analysed under the assumption that their
+Crystal_Array* argument is not NULL (see `VARIANT analysis` below): the per-ARGUMENT footprint of the exemption clause.
 
 The points-to analysis is a small flow-sensitive may-analysis over abstract regions
 
@@ -68,6 +72,14 @@ RET_ARG = {'memcpy': 0, 'memmove': 0, 'strcpy': 0, 'strncpy': 0, 'strcat': 0, 's
            'bsearch': 1, 'lfind': 1, 'strchr': 0, 'strrchr': 0, 'strstr': 0, 'realloc': 0}
 COPY_CONTENTS = {'memcpy': (0, 1), 'memmove': (0, 1), 'strcpy': (0, 1), 'strncpy': (0, 1)}
 CALLBACK_FNS = {'qsort', 'bsearch', 'lfind', 'lsearch'}
+# stdio output functions: index of the FILE* argument.  The footprint records WHICH stream (`fprintf@stderr`): only diagnostics on
+# stderr are exempted by the property, so the allow-list of Props/C16.lean names `fprintf@stderr` and nothing else of this family
+STREAM_ARG = {'fprintf': 0, 'vfprintf': 0, 'fputs': 1, 'fputc': 1, 'putc': 1, 'fwrite': 3, 'fflush': 0}
+# integer types wide enough to carry a pointer through a (u)intptr_t round trip: values of these types keep their regions
+PTRINT = {'long', 'unsigned long', 'long long', 'unsigned long long', 'size_t', 'ssize_t', 'uintptr_t', 'intptr_t', 'ptrdiff_t',
+          '__int128', 'unsigned __int128', 'long int', 'unsigned long int', 'long unsigned int', 'long long int', 'unsigned long long int'}
+VARIANT_SUFFIX = '@user'
+VARIANT_PARAM_TYPE = 'Crystal_Array *'
 
 def kind(n): return n.get('kind')
 def inner(n): return [c for c in n.get('inner', []) if isinstance(c, dict) and c]
@@ -146,6 +158,7 @@ class FnInfo:
         self.sum = Summary()
         self.locale_ops = []     # extracted setlocale protocol
         self.locale_complex = False
+        self.assume = None       # VARIANT rows: indices of the pointer parameters assumed non-NULL on entry
 
 class TU:
     def __init__(self, path, ast):
@@ -153,11 +166,11 @@ class TU:
         self.gvars = {}      # decl id -> name (file-scope objects of the library)
         self.libc_objs = {}  # decl id -> name
         self.fnptr_tables = {}
-        self.rec_by_id = {}; self.name2rec = {}; self.arith_names = set()
+        self.rec_by_id = {}; self.name2rec = {}; self.arith_names = set(); self.wide_names = set()
         def rec_id(t):
             for c in inner(t):
                 if kind(c) == 'RecordType': return ('rec', c.get('decl', {}).get('id'))
-                if kind(c) in ('EnumType', 'BuiltinType'): return ('arith', None)
+                if kind(c) in ('EnumType', 'BuiltinType'): return ('arith', qt(c))
                 r = rec_id(c)
                 if r: return r
             return None
@@ -168,7 +181,9 @@ class TU:
             if kind(n) == 'TypedefDecl':
                 r = rec_id(n)
                 if r and r[0] == 'rec': self.name2rec[n['name']] = r[1]
-                elif r: self.arith_names.add(n['name'])
+                elif r:
+                    self.arith_names.add(n['name'])
+                    if r[1] in PTRINT: self.wide_names.add(n['name'])
             if kind(n) == 'EnumDecl' and n.get('name'): self.arith_names.add('enum ' + n['name'])
         for n in ast['inner']:
             if kind(n) == 'VarDecl':
@@ -196,6 +211,7 @@ def ptr_fields(tu, t, depth=0):
     t = re.sub(r'\s+', ' ', t)
     if '*' in t or '(' in t: return []
     if '[' in t: return ptr_fields(tu, t[:t.index('[')], depth)
+    if t in PTRINT or t in tu.wide_names: return []        # may carry a pointer value (int <-> pointer casts)
     if t in ARITH or t.startswith('enum ') or t in tu.arith_names: return None
     rid = tu.name2rec.get(t) or tu.name2rec.get('struct ' + t) or tu.name2rec.get('union ' + t)
     if rid is None and t.startswith('struct '): rid = tu.name2rec.get(t[7:])
@@ -212,6 +228,7 @@ class Analyzer:
         self.repo = repo; self.flags = flags
         self.tus = {}; self.fns = {}; self.visible = set()
         self.problems = []
+        self.variants = {}        # function name -> None (every `Crystal_Array *` parameter) or a list of parameter indices
 
     def load(self, cfile):
         src = cfile if os.path.isabs(cfile) else os.path.join(self.repo, 'src', cfile)
@@ -234,6 +251,13 @@ class Analyzer:
                 else:
                     self.problems.append('function %s defined in %s and %s' % (name, self.fns[name].tu.path, cfile)); continue
             self.fns[name] = FnInfo(name, tu, n)
+            if n['name'] in self.variants:
+                # VARIANT analysis: the same body under the assumption that the listed pointer parameters are not NULL on entry
+                v = FnInfo(name + VARIANT_SUFFIX, tu, n)
+                idxs = self.variants[n['name']]
+                if idxs is None: idxs = [i for i, p_ in enumerate(v.params) if qt(p_).replace('const ', '').strip() in (VARIANT_PARAM_TYPE, VARIANT_PARAM_TYPE.replace(' *', '*'))]
+                v.assume = frozenset(idxs)
+                self.fns[v.name] = v
 
     def resolve(self, tu, name):
         """function name as seen from `tu` -> key in self.fns"""
@@ -262,14 +286,100 @@ class FnWalk:
         self.rets = set(); self.ret_exp = set()
         self.array_locals = set()
         self.flow_insensitive = False
+        self.addr_taken = set(); self.dead = set(); self.invariant_nonnull = set(); self.nonnull = set()
+        self.var_types = {p['id']: qt(p) for p in f.params}
         def pre(n):
             if kind(n) in ('GotoStmt', 'IndirectGotoStmt'): self.flow_insensitive = True
             if kind(n) == 'VarDecl':
                 if n.get('storageClass') == 'static':
                     self.static_locals[n['id']] = '%s::%s' % (f.name, n['name'])
                 if '[' in qt(n): self.array_locals.add(n['id'])
+                self.var_types[n['id']] = qt(n)
+            if kind(n) == 'UnaryOperator' and n.get('opcode') == '&':
+                y = inner(n)[0]
+                while kind(y) in ('ParenExpr',): y = inner(y)[0]
+                if kind(y) == 'DeclRefExpr': self.addr_taken.add(y.get('referencedDecl', {}).get('id'))
             for c in inner(n): pre(c)
         pre(self.body())
+        if f.assume: self.find_dead_branches()
+
+    # ---- VARIANT analysis: NULL tests on pointer parameters that are assumed non-NULL ------------------------------------
+    @staticmethod
+    def _strip(y, kinds=('ParenExpr', 'ImplicitCastExpr', 'CStyleCastExpr')):
+        while kind(y) in kinds: y = inner(y)[-1]
+        return y
+    def nulltest(self, cond):
+        """-> (decl id, True) if `cond` holds exactly when that pointer variable is NULL, (id, False) if exactly when it is not; else None"""
+        y = self._strip(cond, ('ParenExpr',))
+        def var(z):
+            z = self._strip(z)
+            if kind(z) == 'DeclRefExpr' and z.get('referencedDecl', {}).get('kind') in ('VarDecl', 'ParmVarDecl'):
+                i = z['referencedDecl']['id']
+                if '*' in self.var_types.get(i, ''): return i
+            return None
+        def isnull(z):
+            z = self._strip(z)
+            return kind(z) == 'GNUNullExpr' or (kind(z) == 'IntegerLiteral' and z.get('value') == '0')
+        if kind(y) == 'BinaryOperator' and y.get('opcode') in ('==', '!='):
+            a, b = inner(y)
+            for u, w in ((a, b), (b, a)):
+                if isnull(w) and var(u) is not None: return (var(u), y['opcode'] == '==')
+            return None
+        if kind(y) == 'UnaryOperator' and y.get('opcode') == '!':
+            i = var(inner(y)[0])
+            return (i, True) if i is not None else None
+        i = var(y)
+        return (i, False) if i is not None else None
+    def find_dead_branches(self):
+        """branches that cannot be taken when the assumed parameters are non-NULL.  A parameter counts only while nothing in the LIVE part
+        of the body assigns it or takes its address (so it still holds its entry value at every test)."""
+        pid = {self.f.params[i]['id'] for i in self.f.assume if i < len(self.f.params)}
+        inv = {i for i in pid if i not in self.addr_taken}
+        # greatest fixpoint: start from "every assumed parameter keeps its entry value", drop a parameter as soon as LIVE code assigns it
+        # (sound by induction over an execution: only live code runs, and live code never assigns a parameter that is still in `inv`)
+        for rnd in range(len(pid) + 2):
+            dead = set()
+            def find(n):
+                if kind(n) == 'IfStmt':
+                    c = inner(n); nt = self.nulltest(c[0])
+                    if nt and nt[0] in inv:
+                        if nt[1]: dead.add(c[1]['id'])
+                        elif len(c) > 2: dead.add(c[2]['id'])
+                for c in inner(n): find(c)
+            find(self.body())
+            assigned = set()
+            def scan(n):
+                if n.get('id') in dead: return
+                k = kind(n)
+                if k in ('BinaryOperator', 'CompoundAssignOperator') and (n.get('opcode') == '=' or k == 'CompoundAssignOperator'):
+                    z = self._strip(inner(n)[0], ('ParenExpr',))
+                    if kind(z) == 'DeclRefExpr': assigned.add(z.get('referencedDecl', {}).get('id'))
+                if k == 'UnaryOperator' and n.get('opcode') in ('++', '--'):
+                    z = self._strip(inner(n)[0], ('ParenExpr',))
+                    if kind(z) == 'DeclRefExpr': assigned.add(z.get('referencedDecl', {}).get('id'))
+                for c in inner(n): scan(c)
+            scan(self.body())
+            inv2 = inv - assigned
+            self.dead = dead; self.invariant_nonnull = inv
+            if inv2 == inv: break
+            inv = inv2
+        else:
+            self.dead = set(); self.invariant_nonnull = set()
+    @classmethod
+    def exits(cls, n):
+        if kind(n) in ('ReturnStmt', 'GotoStmt'): return True
+        if kind(n) == 'CompoundStmt':
+            st = inner(n)
+            return bool(st) and cls.exits(st[-1])
+        return False
+    def arg_nonnull(self, a):
+        y = self._strip(a)
+        if kind(y) == 'UnaryOperator' and y.get('opcode') == '&': return True
+        if kind(y) == 'DeclRefExpr': return y.get('referencedDecl', {}).get('id') in (self.nonnull | self.invariant_nonnull)
+        return False
+    def kill_nonnull(self, keys):
+        for (r, _) in keys:
+            if r.startswith('L:'): self.nonnull.discard(r[2:])
 
     def body(self):
         return [c for c in inner(self.f.node) if kind(c) == 'CompoundStmt'][0]
@@ -282,10 +392,10 @@ class FnWalk:
         if self.flow_insensitive:
             # goto: no strong updates, iterate the body until the (monotonically growing) state is stable
             for it in range(12):
-                before = self.st.copy(); self.stmt(self.body())
+                before = self.st.copy(); self.nonnull = set(); self.stmt(self.body())
                 if self.st == before: break
         else:
-            self.stmt(self.body())
+            self.nonnull = set(); self.stmt(self.body())
         self.snapshot()
         f.sum.ret |= self.ret_exp
         self.extract_locale()
@@ -321,7 +431,7 @@ class FnWalk:
         return False
     def assign(self, keys, vals):
         self.write(keys)
-        keys = list(keys)
+        keys = list(keys); self.kill_nonnull(keys)
         strong = len(keys) == 1 and self.singular(keys[0][0])
         for k in keys: self.st.store(k, vals, strong)
 
@@ -391,7 +501,7 @@ class FnWalk:
         fs = ptr_fields(self.tu, type_of(lhs_node)) if 'type' in lhs_node else []
         if fs:
             self.write(keys)
-            ks = list(keys)
+            ks = list(keys); self.kill_nonnull(ks)
             for (r, f0) in ks:
                 strong = len(ks) == 1 and self.singular(r) and f0 != '*'
                 if strong and f0 == '@': self.st.store((r, '@'), set(), True)
@@ -429,7 +539,7 @@ class FnWalk:
                 return {r for r, _ in self.loc(c)}
             if op == '*': return self.loadkeys(self.loc(n))
             if op in ('++', '--'):
-                keys = self.loc(c); self.write(keys); return self.loadkeys(keys)
+                keys = self.loc(c); self.write(keys); self.kill_nonnull(keys); return self.loadkeys(keys)
             return self.val(c) if op in ('__extension__', '+') else (self.val(c) and set())
         if k == 'BinaryOperator':
             op = n.get('opcode'); a, b = inner(n)
@@ -437,10 +547,11 @@ class FnWalk:
                 v = self.val(b); keys = self.loc(a); self.assign_typed(a, keys, v); return v
             if op == ',': self.val(a); return self.val(b)
             va = self.val(a); vb = self.val(b)
+            if op == '-' and '*' in type_of(a) and '*' in type_of(b): return set()      # a difference of two pointers is an offset
             return (va | vb) if op in ('+', '-') else set()
         if k == 'CompoundAssignOperator':
             a, b = inner(n)
-            v = self.val(b); keys = self.loc(a); self.write(keys)
+            v = self.val(b); keys = self.loc(a); self.write(keys); self.kill_nonnull(keys)
             for key in keys: self.st.store(key, v, False)
             return self.loadkeys(keys)
         if k in ('ConditionalOperator', 'BinaryConditionalOperator'):
@@ -449,6 +560,19 @@ class FnWalk:
             for x in c[1:]: out |= self.val(x)
             return out
         if k == 'CallExpr': return self.call(n)
+        if k == 'AtomicExpr':
+            # __atomic_* / __c11_atomic_* builtins: the AST does not say which one, so every one of them is taken to WRITE through its
+            # first (pointer) operand — fetch_add, store, exchange, compare_exchange do; a pure load is over-approximated
+            c = inner(n)
+            regs = self.val(c[0]) if c else set()
+            v = set()
+            for x in c[1:]: v |= self.val(x)
+            keys = {(r, '*') for r in regs}
+            self.write(keys)
+            for key in keys: self.st.store(key, v, False)
+            for x in c[1:]:                                    # compare_exchange writes `expected` too
+                if '*' in type_of(x): self.write({(r, '*') for r in self.val(x)})
+            return self.loadkeys(keys)
         if k == 'VAArgExpr':
             for c in inner(n): self.val(c)
             return {'X'}
@@ -476,8 +600,21 @@ class FnWalk:
         if kind(x) == 'DeclRefExpr' and x.get('referencedDecl', {}).get('kind') == 'FunctionDecl':
             nm = x['referencedDecl']['name']
             key = self.an.resolve(self.tu, nm)
+            if key and self.f.assume is not None and (key + VARIANT_SUFFIX) in self.an.fns:
+                va_ = self.an.fns[key + VARIANT_SUFFIX]
+                if va_.assume and all(i < len(args) and self.arg_nonnull(args[i]) for i in va_.assume): key = key + VARIANT_SUFFIX
             if key: targets.append(key); self.f.callees.add(key)
-            else: ext = nm; self.f.exts.add(nm)
+            else:
+                ext = nm; label = nm
+                if nm in STREAM_ARG:
+                    i = STREAM_ARG[nm]; tag = 'other'
+                    if i < len(args):
+                        y = self._strip(args[i])
+                        if kind(y) == 'DeclRefExpr':
+                            tag = self.tu.libc_objs.get(y.get('referencedDecl', {}).get('id'), 'other')
+                            if tag not in ('stderr', 'stdout', 'stdin'): tag = 'other'
+                    label = '%s@%s' % (nm, tag)
+                self.f.exts.add(label)
         else:
             # indirect: through a constant function-pointer table, or unknown
             found = set()
@@ -587,11 +724,24 @@ class FnWalk:
         elif k == 'IfStmt':
             c = inner(n)
             self.val(c[0])
-            s0 = self.st.copy()
-            self.stmt(c[1]); s1 = self.st
-            self.st = s0
-            if len(c) > 2: self.stmt(c[2])
-            self.st = s1.join(self.st)
+            s0 = self.st.copy(); nn0 = set(self.nonnull)
+            outs = []
+            if c[1].get('id') not in self.dead:
+                self.stmt(c[1]); outs.append(self.st)
+            self.st = s0.copy(); self.nonnull = set(nn0)
+            if len(c) > 2:
+                if c[2].get('id') not in self.dead:
+                    self.stmt(c[2]); outs.append(self.st)
+            else:
+                outs.append(self.st)
+            st = outs[0] if outs else s0
+            for o in outs[1:]: st = st.join(o)
+            self.st = st
+            # what was learnt inside a branch does not survive the join; a test `if (v == NULL) { …; return/goto }` teaches v != NULL below
+            self.nonnull = nn0
+            nt = self.nulltest(c[0])
+            if nt and nt[1] and self.exits(c[1]) and nt[0] not in self.addr_taken:
+                self.nonnull.add(nt[0])
         elif k in ('ForStmt', 'WhileStmt', 'DoStmt'):
             raw = n.get('inner', [])
             if k == 'ForStmt':
@@ -602,9 +752,9 @@ class FnWalk:
             else:
                 body, cond = raw[0], raw[1]; inc = {}
             self.loop += 1
-            breaks = []
+            breaks = []; nn0 = set(self.nonnull)
             for it in range(10):
-                s_in = self.st.copy()
+                s_in = self.st.copy(); self.nonnull = set(nn0)
                 fr = dict(kind='loop', breaks=[], continues=[]); self.frames.append(fr)
                 if cond and k != 'DoStmt': self.val(cond)
                 if body: self.stmt(body)
@@ -617,21 +767,22 @@ class FnWalk:
             else:
                 self.an.problems.append('%s: loop state did not stabilise' % self.f.name)
             for b_ in breaks: self.st = self.st.join(b_)
-            self.loop -= 1
+            self.loop -= 1; self.nonnull = nn0
         elif k == 'SwitchStmt':
-            c = inner(n); self.val(c[0])
-            fr = dict(kind='switch', breaks=[], continues=[], entry=self.st.copy()); self.frames.append(fr)
+            c = inner(n); self.val(c[0]); nn0 = set(self.nonnull)
+            fr = dict(kind='switch', breaks=[], continues=[], entry=self.st.copy(), nn=nn0); self.frames.append(fr)
             self.stmt(c[-1])
-            self.frames.pop()
+            self.frames.pop(); self.nonnull = nn0
             self.st = self.st.join(fr['entry'])          # no case taken / fall out of the last case
             for b_ in fr['breaks']: self.st = self.st.join(b_)
         elif k in ('CaseStmt', 'DefaultStmt'):
             sw = [f_ for f_ in self.frames if f_['kind'] == 'switch']
-            if sw: self.st = self.st.join(sw[-1]['entry'])    # a label is reached from the switch head too
+            if sw: self.st = self.st.join(sw[-1]['entry']); self.nonnull = set(sw[-1]['nn'])    # a label is reached from the switch head too
             for c in inner(n):
                 if kind(c) and ('Stmt' in kind(c)): self.stmt(c)
                 else: self.val(c)
         elif k in ('LabelStmt', 'AttributedStmt'):
+            if k == 'LabelStmt': self.nonnull = set()        # reachable from a goto: nothing learnt on the way here holds
             for c in inner(n):
                 if kind(c) and ('Stmt' in kind(c)): self.stmt(c)
                 else: self.val(c)
@@ -777,8 +928,12 @@ def emit(an, repo, lean_path, json_path):
         parts = chunks([idx[n] for n in ent], 50)
         for i, p in enumerate(parts): L.append('def %sEntries_%d : List Nat := %s' % (c, i, nat_list(p)))
         L.append('def %sEntries : List Nat := %s' % (c, ' ++ '.join('%sEntries_%d' % (c, i) for i in range(len(parts)))))
+    um = [n for n in names if an.fns[n].assume is not None and n[:-len(VARIANT_SUFFIX)] in MUTATORS]
+    L.append('/-- the crystal-array mutators analysed under the assumption that their Crystal_Array* argument is NOT NULL (a user array): %s -/' % ' '.join(um))
+    L.append('def userMutatorEntries : List Nat := %s' % nat_list(idx[n] for n in um))
+    L.append('-- functions that call fprintf/fputs/… on stderr (names; cf. `diagSites` of Props/C16.lean): %s' % ' '.join(n for n in names if any(x.endswith('@stderr') for x in an.fns[n].exts)))
     L.append('')
-    protos = [(n, an.fns[n]) for n in names if an.fns[n].locale_ops]
+    protos = [(n, an.fns[n]) for n in names if an.fns[n].locale_ops and an.fns[n].assume is None]
     L.append('/-- setlocale protocol of every function that calls setlocale (source order; `complex` = not straight-line) -/')
     L.append('def localeProtocols : List LocaleProto := [' + ', '.join(
         '⟨%d, %s, %s⟩' % (idx[n], 'true' if f.locale_complex else 'false', locale_lean(f.locale_ops)) for n, f in protos) + ']')
@@ -797,7 +952,7 @@ def emit(an, repo, lean_path, json_path):
                                                  locale_ops=an.fns[n].locale_ops, locale_complex=an.fns[n].locale_complex,
                                                  ret=qt(an.fns[n].node).split('(')[0].strip(),
                                                  params=[[p_.get('name', ''), qt(p_)] for p_ in an.fns[n].params]) for n in names},
-                classes=cls, undefined_public=undefined, problems=an.problems,
+                classes=cls, user_mutators=um, undefined_public=undefined, problems=an.problems,
                 sha256=hashlib.sha256(txt.encode()).hexdigest())
     json.dump(meta, open(json_path, 'w'), indent=1)
     return meta
@@ -805,6 +960,7 @@ def emit(an, repo, lean_path, json_path):
 def analyze(repo, bdir):
     flags = cbuild.cflags(repo, bdir)
     an = Analyzer(repo, flags)
+    an.variants = {m: None for m in MUTATORS}
     with ThreadPoolExecutor(max_workers=16) as ex:
         res = list(ex.map(an.load, cbuild.LIBXRL))
     for cfile, ast in res: an.add_tu(cfile, ast)
@@ -815,11 +971,31 @@ def selftest(path=None):
     """analyse harness/footprint_selftest.c and compare with its EXPECT annotations -> list of disagreements"""
     path = path or os.path.join(os.path.dirname(HERE), 'harness', 'footprint_selftest.c')
     an = Analyzer('/nonexistent', [])
+    src_txt = open(path).read()
+    an.variants = {m.group(1): [int(x) for x in m.group(2).split(',')] for m in re.finditer(r'VARIANT (\w+): nonnull=([\d,]+)', src_txt)}
     cfile, ast = an.load(path)
     an.add_tu(os.path.basename(path), ast)
     an.run()
     bad = list(an.problems); n = 0
-    for m in re.finditer(r'EXPECT (\w+): W=([\w:,]*)', open(path).read()):
+    for m in re.finditer(r'EXPECTX ([\w@]+): X=([\w:,@]*)', src_txt):
+        fn, exp = m.group(1), set(x for x in m.group(2).split(',') if x)
+        n += 1
+        if fn not in an.fns: bad.append('selftest: function %s not found' % fn); continue
+        got = set(x for x in an.fns[fn].exts if not x.startswith('__builtin'))
+        if got != exp: bad.append('selftest %s: expected external calls %s, extractor reports %s' % (fn, sorted(exp), sorted(got)))
+    def trans(fn):
+        seen = {fn}; todo = [fn]; w = set()
+        while todo:
+            g = an.fns[todo.pop()]; w |= set(g.writes) | set(g.unknown_writes)
+            for c_ in g.callees:
+                if c_ not in seen: seen.add(c_); todo.append(c_)
+        return w
+    for m in re.finditer(r'EXPECTT ([\w@]+): W=([\w:,@]*)', src_txt):      # transitive (over the call graph), as Lean's checkEntries sees it
+        fn, exp = m.group(1), set(x for x in m.group(2).split(',') if x)
+        n += 1
+        if fn not in an.fns: bad.append('selftest: function %s not found' % fn); continue
+        if trans(fn) != exp: bad.append('selftest %s: expected transitive writes %s, extractor reports %s' % (fn, sorted(exp), sorted(trans(fn))))
+    for m in re.finditer(r'EXPECT ([\w@]+): W=([\w:,@]*)', src_txt):
         fn, exp = m.group(1), set(x for x in m.group(2).split(',') if x)
         n += 1
         if fn not in an.fns: bad.append('selftest: function %s not found' % fn); continue
